@@ -30,9 +30,14 @@ theorem ast_write_only_at_creation :
     BexprGen.Effects.reachable.contains "precompileRegexps" = true := by
   decide +kernel
 
-/-- the only package-level variable is the read-only `byteSliceTyp` -/
-theorem globals_readonly :
-    BexprGen.Effects.globals = [("byteSliceTyp", "reflect.TypeOf([]byte{})")] := by
+/-- every package-level variable is initialised with a value the code can only READ: a `reflect.Type`, an
+    `errors.New` value, a basic literal, or a table from reflect kinds to function names (a store into such a
+    table would be a `shared` store site, which the class obligations above exclude).  A `sync.Pool`, a
+    `sync.Map`, a cache, a counter, a buffer — anything else — has no class and fails here. -/
+theorem globals_immutable :
+    BexprGen.Effects.globalClasses.all
+      (fun g => ["typeOf", "errorsNew", "basic", "kindFnTable"].contains g.2) = true ∧
+    BexprGen.Effects.globalClasses.length = BexprGen.Effects.globals.length := by
   decide +kernel
 
 /-- Evaluate rebuilds its options from the evaluator's fields on every call: exactly these three
